@@ -40,18 +40,29 @@ func NewRapidChooser(rt *rapid.T, pr Profile) *RapidChooser {
 	c.Policy = rapid.SampledFrom(names).Draw(rt, "policy")
 	if pr.Cuts {
 		c.CutMode = rapid.IntRange(0, 2).Draw(rt, "cutMode")
+	} else if !pr.NoCuts && rapid.IntRange(0, 3).Draw(rt, "persistenceHops") == 0 {
+		// a quarter of the hands of every property are restored from JSON at
+		// drawn wait points (always / at random)
+		c.CutMode = rapid.IntRange(1, 2).Draw(rt, "cutMode")
 	}
 	return c
 }
 
-func (c *RapidChooser) Cut(h *Hand) bool {
+func (c *RapidChooser) Cut(h *Hand) string {
+	cut := false
 	switch c.CutMode {
 	case 1:
-		return true
+		cut = true
 	case 2:
-		return rapid.IntRange(0, 3).Draw(c.RT, "cut") == 0
+		cut = rapid.IntRange(0, 3).Draw(c.RT, "cut") == 0
 	}
-	return false
+	if !cut {
+		return ""
+	}
+	if rapid.IntRange(0, 2).Draw(c.RT, "cutHow") == 0 {
+		return "load"
+	}
+	return "new"
 }
 
 func (c *RapidChooser) Decide(h *Hand, gs *pf.GameState) Op {
@@ -242,13 +253,17 @@ func (c *ReplayChooser) Probes(h *Hand, gs *pf.GameState) []Op {
 	return out
 }
 
-func (c *ReplayChooser) Cut(h *Hand) bool {
+func (c *ReplayChooser) Cut(h *Hand) string {
 	c.skipTable()
 	if c.pos < len(c.Ops) && c.Ops[c.pos].K == "cut" {
+		how := c.Ops[c.pos].A
 		c.pos++
-		return true
+		if how == "" {
+			how = "new"
+		}
+		return how
 	}
-	return false
+	return ""
 }
 
 func (c *ReplayChooser) Decide(h *Hand, gs *pf.GameState) Op {
